@@ -13,6 +13,7 @@
 (*   Seal(f)      proxyFrac.Seal publishes the sealed copy of f            *)
 (*   Shift(f)     fm.shiftFirstFrac: retention pops the HEAD of the list   *)
 (*   DelBegin(f)  Suicide's first rename to *.del: deletion begun on disk  *)
+(*   DelEnd(f)    Suicide has run to its end (only after DelBegin)         *)
 (*   StopBegin / StopEnd   graceful stop (may seal the active fraction)    *)
 (*   Crash        the process dies (any mode)                              *)
 (*   Load(..)     loader.load over whatever the crash left, then the       *)
@@ -117,6 +118,11 @@ DelBegin(f) == /\ mode # "down" /\ \E r \in limbo : r.id = f
                /\ limbo' = {r \in limbo : r.id # f} /\ dead' = dead \cup {f}
                /\ UNCHANGED <<fracs, active, acked, retired, pending, inflight, mode, exiting, crashes>>
 
+\* the deletion of f has run to its end: it must have begun on disk (a deletion that touched nothing - e.g. because it
+\* worked on a stale path - leaves the fraction to come back at the next start)
+DelEnd(f) == /\ mode # "down" /\ f \in dead
+             /\ UNCHANGED vars
+
 StopBegin == /\ mode = "up" /\ pending = {} /\ mode' = "stopping" /\ exiting' = TRUE
              /\ UNCHANGED <<fracs, active, limbo, dead, acked, retired, pending, inflight, crashes>>
 StopEnd == /\ mode = "stopping" /\ mode' = "down" /\ inflight' = {}
@@ -185,7 +191,7 @@ LoadEnd == /\ mode = "loading" /\ active # 0
 Used == acked \cup InFlight(pending)
 Next == \/ \E b \in 1..MaxBulk : (b \notin Used /\ (\A x \in 1..(b - 1) : x \in Used) /\ BulkBegin(b)) \/ Bulk(b)
         \/ (MaxId < MaxFrac /\ Rotate(MaxId + 1))
-        \/ \E f \in 1..MaxFrac : Seal(f) \/ Shift(f) \/ DelBegin(f) \/ (f \notin dead /\ Released(f))
+        \/ \E f \in 1..MaxFrac : Seal(f) \/ Shift(f) \/ DelBegin(f) \/ (f \notin dead /\ Released(f))   \* DelEnd stutters
         \/ StopBegin \/ StopEnd \/ Crash \/ LoadEnd
         \/ \E B \in SUBSET limbo : \E pl \in Places(B), D \in SUBSET SealCands(B), U \in SUBSET ReopenCands(B) : Load(pl, B, D, U)
 Spec == Init /\ [][Next]_vars
